@@ -7,6 +7,7 @@ sys.path.insert(0, os.path.join(HERE, "..", "..", "lib"))
 import vxlib  # noqa: E402
 
 NAME = "U1"
+RLIMIT = 60
 PROPS = ["C09", "C04"]
 
 PK = "passage-packets/src/"
@@ -27,10 +28,38 @@ def read_text(name):
         return f.read()
 
 
+PACKET_FILES = ["handshake", "status", "login", "configuration"]
+
+
+def same_expr(fields):
+    parts = []
+    for name, ty in fields:
+        t = ty.replace(" ", "")
+        f = name if name else "0"
+        if t in ("String", "Vec<u8>", "VerifyToken"):
+            parts.append(f"self.{f}@ == o.{f}@")
+        elif t in ("Option<Vec<u8>>", "Option<String>"):
+            parts.append(f"(match (self.{f}, o.{f}) {{ (Some(a), Some(b)) => a@ == b@, (None, None) => true, _ => false }})")
+        else:
+            parts.append(f"self.{f} == o.{f}")
+    return " && ".join(parts) if parts else "true"
+
+
+def discover_packets():
+    """All `impl Packet for X` of the four packet files, with module path."""
+    out = []
+    for pf in PACKET_FILES:
+        for it in vxlib.vx_list(PK + pf + ".rs"):
+            if it["kind"] == "impl" and it["trait_"] == "Packet":
+                out.append((pf, it["modpath"], it["self_ty"]))
+    return out
+
+
 def build(vacuity=False, only=None):
     vxlib.reset_vac()
     C = vxlib.load_contracts(os.path.join(HERE, "contracts.toml"))
     fnc = {k: vxlib.FnContract(k, v) for k, v in C.get("fn", {}).items()}
+    pkc = C.get("packet", {})
     u = vxlib.Unit(NAME)
     u.default_props = ["C04"]
 
@@ -40,13 +69,33 @@ def build(vacuity=False, only=None):
         items.append({"key": f"type.{n}", "file": PK + "lib.rs", "kind": "type", "name": n, "rules": ["attrs"]})
     items.append({"key": "const.INITIAL_BUFFER_SIZE", "file": PK + "lib.rs", "kind": "const", "name": "INITIAL_BUFFER_SIZE", "rules": ["attrs"]})
     items.append({"key": "enum.Error", "file": PK + "lib.rs", "kind": "enum", "name": "Error", "rules": ["attrs", "generics"], "subst": ERR_SUBST})
-    # --- reader fns
+    items.append({"key": "struct.DisplayedSkinParts", "file": PK + "lib.rs", "kind": "struct", "name": "DisplayedSkinParts", "rules": ["attrs"]})
+    for e in ENUMS:
+        items.append({"key": f"enum.{e}", "file": PK + "lib.rs", "kind": "enum", "name": e, "rules": ["attrs"]})
+        items.append({"key": f"impl.From.{e}", "file": PK + "lib.rs", "kind": "impl", "self_ty": "VarInt", "trait": f"From<{e}>", "rules": ["attrs"]})
+        items.append({"key": f"impl.TryFrom.{e}", "file": PK + "lib.rs", "kind": "impl", "self_ty": e, "trait": "TryFrom<VarInt>", "rules": ["attrs"]})
+    # --- reader / writer fns
     for f in READER_FNS:
         key = f"reader.{f}"
-        if key not in fnc:
-            continue
         items.append({"key": key, "file": PK + "reader.rs", "kind": "impl_fn", "trait": "AsyncReadPacket", "name": f,
                       "rules": FN_RULES, "anchors": vxlib.anchors_for(fnc[key], vacuity)})
+    for f in WRITER_FNS:
+        key = f"writer.{f}"
+        items.append({"key": key, "file": PK + "writer.rs", "kind": "impl_fn", "trait": "AsyncWritePacket", "name": f,
+                      "rules": FN_RULES, "anchors": vxlib.anchors_for(fnc[key], vacuity)})
+    # --- packets
+    packets = discover_packets()
+    empty = vxlib.FnContract("_", {})
+    for pf, modpath, ty in packets:
+        pk = ".".join([pf] + modpath + [ty])
+        base = {"file": PK + pf + ".rs", "modpath": modpath}
+        items.append({**base, "key": f"{pk}.struct", "kind": "struct", "name": ty, "rules": ["attrs"]})
+        items.append({**base, "key": f"{pk}.ID", "kind": "impl_const", "self_ty": ty, "trait": "Packet", "name": "ID", "rules": ["attrs"]})
+        anch = ["fn:begin"] if vacuity else []
+        items.append({**base, "key": f"{pk}.write_to_buffer", "kind": "impl_fn", "self_ty": ty, "trait": "WritePacket", "name": "write_to_buffer",
+                      "rules": FN_RULES, "subst": {"S": "Vec<u8>"}, "drop_generics": ["S"], "anchors": anch + ["fn:before-tail"]})
+        items.append({**base, "key": f"{pk}.read_from_buffer", "kind": "impl_fn", "self_ty": ty, "trait": "ReadPacket", "name": "read_from_buffer",
+                      "rules": FN_RULES, "subst": {"S": "Reader"}, "drop_generics": ["S"], "anchors": anch})
     ex = vxlib.run_vx(items)
 
     u.raw(read_text("prelude.rs"))
@@ -58,13 +107,96 @@ def build(vacuity=False, only=None):
         u.add_item_text(ex[f"type.{n}"])
     u.add_item_text(ex["const.INITIAL_BUFFER_SIZE"])
     u.add_item_text(ex["enum.Error"])
+    u.raw("#[derive(Clone, Copy, PartialEq, Eq, Structural)]\n")
+    u.add_item_text(ex["struct.DisplayedSkinParts"])
+    for e in ENUMS:
+        u.raw("#[derive(Clone, Copy, PartialEq, Eq, Structural)]\n")
+        u.add_item_text(ex[f"enum.{e}"])
+        u.add_item_text(ex[f"impl.From.{e}"])
+        u.add_item_text(ex[f"impl.TryFrom.{e}"])
+        u.fn_meta[f"enum.{e}.from"] = {"file": ex[f"impl.From.{e}"]["file"], "lines": [ex[f"impl.From.{e}"]["line_start"], ex[f"impl.From.{e}"]["line_end"]], "mode": "verify", "props": ["C09"], "loops": 0, "rules": {}}
+        u.fn_meta[f"enum.{e}.try_from"] = {"file": ex[f"impl.TryFrom.{e}"]["file"], "lines": [ex[f"impl.TryFrom.{e}"]["line_start"], ex[f"impl.TryFrom.{e}"]["line_end"]], "mode": "verify", "props": ["C09"], "loops": 0, "rules": {}}
+    u.raw("} // verus!\n")
+    u.raw(read_text("enums.rs"))
+    u.raw(read_text("traits.rs"))
+    u.raw("verus! {\n")
 
     # reader
     u.raw("pub mod reader {\n    use super::*;\n    use super::fastnbt::{DeOpts, Value};\n    impl Reader {\n")
     for f in READER_FNS:
         key = f"reader.{f}"
-        if key in fnc:
-            u.add_fn(ex[key], fnc[key], vacuity=vacuity, indent="        ")
+        ex[key]["vis"] = "pub"  # trait methods are public; emitted here as inherent methods of the model reader
+        u.add_fn(ex[key], fnc[key], vacuity=vacuity, indent="        ")
     u.raw("    }\n}\n")
+
+    # writer: trait declaration carries the contracts, the impl for Vec<u8> carries the real bodies
+    u.raw("pub trait AsyncWritePacket: AsyncWriteExt {\n")
+    for f in WRITER_FNS:
+        key = f"writer.{f}"
+        u.add_fn(ex[key], fnc[key], mode="decl", indent="    ")
+    u.raw("}\n")
+    u.raw("pub mod writer {\n    use super::*;\n    use super::fastnbt::SerOpts;\n    use super::serde_json::Value;\n    impl AsyncWritePacket for Vec<u8> {\n")
+    for f in WRITER_FNS:
+        key = f"writer.{f}"
+        u.add_fn(ex[key], fnc[key], mode="body", vacuity=vacuity, indent="        ")
+    u.raw("    }\n}\n")
+
+    # packets, in their real module structure
+    by_mod = {}
+    for pf, modpath, ty in packets:
+        by_mod.setdefault((pf,) + tuple(modpath), []).append(ty)
+    files = {}
+    for path, tys in by_mod.items():
+        files.setdefault(path[0], []).append((path[1:], tys))
+    for pf, mods in files.items():
+        u.raw(f"pub mod {pf} {{\n    use super::*;\n")
+        for modpath, tys in mods:
+            for m in modpath:
+                u.raw(f"    pub mod {m} {{\n    use super::*;\n")
+            for ty in tys:
+                pk = ".".join([pf] + list(modpath) + [ty])
+                st = ex[f"{pk}.struct"]
+                pc = pkc.get(pk)
+                if pc is None:
+                    if st["fields"]:
+                        raise vxlib.ToolTrouble(f"packet {pk} has fields but no layout contract in contracts.toml")
+                    pc = {}
+                if "id" not in pc:
+                    raise vxlib.ToolTrouble(f"packet {pk} has no protocol id in contracts.toml")
+                enc = pc.get("enc", "tail")
+                limits = pc.get("limits", "true")
+                u.add_item_text(st)
+                u.raw(f"    impl Packet for {ty} {{\n")
+                u.add_item_text(ex[f"{pk}.ID"])
+                u.raw("    }\n")
+                u.raw(f"    impl WireSpec for {ty} {{\n"
+                      f"        open spec fn enc_then(&self, tail: Seq<u8>) -> Seq<u8> {{ {enc} }}\n"
+                      f"        open spec fn in_limits(&self) -> bool {{ {limits} }}\n"
+                      f"        open spec fn same(&self, o: &Self) -> bool {{ {same_expr(st['fields'])} }}\n"
+                      f"        open spec fn proto_id() -> int {{ {pc['id']} }}\n"
+                      f"    }}\n")
+                cid = f"C09.{pk}.id"
+                u.add_clause(vxlib.Clause(cid, "ensures", "id", ["C09"], f"{pk}.ID"))
+                u.raw(f"    // @fn-begin:{pk}.ID src={ex[pk + '.ID']['file']}:{ex[pk + '.ID']['line_start']}-{ex[pk + '.ID']['line_end']} mode=verify\n"
+                      f"    proof fn vx_id_check_{ty}()\n        ensures\n"
+                      f"            <{ty} as Packet>::ID == <{ty} as WireSpec>::proto_id(), // @cl:{cid}\n    {{}}\n"
+                      f"    // @fn-end:{pk}.ID\n")
+                u.fn_meta[f"{pk}.ID"] = {"file": ex[pk + ".ID"]["file"], "lines": [ex[pk + ".ID"]["line_start"], ex[pk + ".ID"]["line_end"]], "mode": "verify", "props": ["C09"], "loops": 0, "rules": {}}
+                hint = {"fn:before-tail": "proof { assert(buffer@ =~= old(buffer)@ + self.enc_then(Seq::empty())); }"} if st["fields"] else {}
+                wc = vxlib.FnContract(f"{pk}.write_to_buffer", {"props": ["C04", "C09"], "proof": hint})
+                rc = vxlib.FnContract(f"{pk}.read_from_buffer", {"props": ["C04", "C09"]})
+                u.raw(f"    impl WritePacket for {ty} {{\n")
+                u.add_fn(ex[f"{pk}.write_to_buffer"], wc, mode="body", vacuity=vacuity, indent="        ")
+                u.raw("    }\n")
+                u.raw(f"    impl ReadPacket for {ty} {{\n")
+                rmode = "body"
+                if pc.get("read") == "unsupported":
+                    rmode = "body_external"
+                    u.trusted_notes.append(f"{pk}.read_from_buffer NOT under contract (left as external_body): {pc.get('read_note', '')}")
+                u.add_fn(ex[f"{pk}.read_from_buffer"], rc, mode=rmode, vacuity=vacuity, indent="        ")
+                u.raw("    }\n")
+            for m in modpath:
+                u.raw("    }\n")
+        u.raw("}\n")
     u.raw("} // verus!\nfn main() {}\n")
     return u
